@@ -163,3 +163,39 @@ Lemma valid_len_only (isvalid : slice -> res bool) :
   (forall v, wf v -> isvalid v = isvalid (restrict v)) ->
   forall v v', wf v -> wf v' -> view v = view v' -> isvalid v = isvalid v'.
 Proof. intros R v v' W W' E. rewrite (R v W), (R v' W'), (restrict_same v v' E). reflexivity. Qed.
+
+(* ---- round 7: Ether at full strength on its natural domain.  A frame that has a payload (len <> header length:
+   every frame Parse accepts beyond a bare header), or any frame without spare capacity, is outside the recorded
+   class, and there the statements hold with NO excluded class ---- *)
+Lemma getters_ok_full fs t v : (forall name, known_of fs name v = false) -> getters_ok fs t v -> getters_ok [] t v.
+Proof.
+  intros K H. unfold getters_ok in *. rewrite Forall_forall in *. intros ng Hin _. apply H; [exact Hin|apply K].
+Qed.
+Lemma getters_spec_full fs t st v : (forall name, known_of fs name v = false) -> getters_spec fs t st v -> getters_spec [] t st v.
+Proof.
+  intros K H. unfold getters_spec in *. induction H as [|ng ns t st [Hn Hs] Hr IH]; constructor; [|exact IH].
+  split; [exact Hn|]. intros s Es _. apply Hs; [exact Es|apply K].
+Qed.
+
+Definition ether_has_payload_or_no_spare (v : slice) : Prop := len v <> eth_hlen v \/ cap v = len v.
+
+Lemma Ether_outside_class v : ether_has_payload_or_no_spare v -> forall name, known_of Ether_findings name v = false.
+Proof.
+  intros H name. unfold known_of, Ether_findings, k_ether_payload. cbn [existsb f_pred]. rewrite Bool.orb_false_r.
+  destruct (is name "Payload"); [|reflexivity]. cbn [andb].
+  destruct (Nat.eqb_spec (len v) (eth_hlen v)); [|reflexivity]. cbn [andb].
+  destruct (Nat.ltb_spec (len v) (cap v)); [|reflexivity]. destruct H; lia.
+Qed.
+
+Theorem Ether_full_on_payload_frames v : wf v -> bytes_ok (arr v) -> Ether_IsValid v = Ok true ->
+  ether_has_payload_or_no_spare v ->
+  getters_ok [] Ether_getters v /\ getters_spec [] Ether_getters Ether_specs v.
+Proof.
+  intros W B H D. pose proof (Ether_outside_class v D) as K. split.
+  - apply (getters_ok_full Ether_findings); [exact K|apply Ether_safe; assumption].
+  - apply (getters_spec_full Ether_findings); [exact K|apply Ether_spec; assumption].
+Qed.
+
+(* non-vacuity: ex_ether (IPv4 frame with 3 bytes of spare capacity) has a payload *)
+Example Ether_payload_frame_ex : ether_has_payload_or_no_spare ex_ether /\ Ether_IsValid ex_ether = Ok true.
+Proof. split; [left; vm_compute; lia|reflexivity]. Qed.
